@@ -474,29 +474,49 @@ Qed.
 
 Definition decoder_ok (d : decoder) : Prop := chain_ok (inner d) /\ bytes_ok (read_buf d).
 
+Lemma line_step_bytes_ok : forall fuel e c buf k buf' c',
+  chain_ok c -> bytes_ok buf -> line_step fuel e c buf = IoDone (k, buf', c') ->
+  bytes_ok buf' /\ chain_ok c'.
+Proof.
+  intros fuel e c buf k buf' c' Hc Hb H. unfold line_step in H. destruct e.
+  - inversion H; subst. split; assumption.
+  - destruct (Nat.even (length buf)).
+    + destruct (nth_error buf (length buf - 2)); [inversion H; subst; split; assumption|discriminate].
+    + inversion H; subst. split; assumption.
+  - destruct (Nat.even (length buf)); [inversion H; subst; split; assumption|].
+    destruct (read_extra fuel c buf) as [[b c2]|k0|w|] eqn:RE; cbn [io_bind] in H; try discriminate.
+    inversion H; subst. exact (read_extra_bytes_ok _ _ _ _ _ Hc Hb RE).
+Qed.
+
+Lemma read_line_loop_bytes_ok : forall n fuel e c buf buf' c',
+  chain_ok c -> bytes_ok buf -> read_line_loop n fuel e c buf = IoDone (buf', c') ->
+  bytes_ok buf' /\ chain_ok c'.
+Proof.
+  induction n as [|n IH]; intros fuel e c buf buf' c' Hc Hb H; [discriminate|]. cbn [read_line_loop] in H.
+  destruct (chain_read_until fuel LF c buf) as [[buf1 c1]|k|w|] eqn:RU; cbn [io_bind] in H; try discriminate.
+  destruct (chain_read_until_bytes_ok _ _ _ _ _ _ Hc Hb RU) as (Hb1 & Hc1).
+  destruct ((length buf <? length buf1)%nat && ends_with_lf buf1).
+  - destruct (line_step fuel e c1 buf1) as [[[f buf2] c2]|k|w|] eqn:LS; cbn [io_bind] in H; try discriminate.
+    destruct (line_step_bytes_ok _ _ _ _ _ _ _ Hc1 Hb1 LS) as (Hb2 & Hc2). destruct f.
+    + inversion H; subst. split; assumption.
+    + exact (IH _ _ _ _ _ _ Hc2 Hb2 H).
+  - inversion H; subst. split; assumption.
+Qed.
+
 Lemma read_line_scalar : forall fuel d o d',
   chain_ok (inner d) -> read_line fuel d = IoDone (o, d') ->
   decoder_ok d' /\ match o with Some l => scalar_str l | None => True end.
 Proof.
   intros fuel d o d' Hr H. unfold read_line in H.
-  destruct (chain_read_until fuel LF (inner d) []) as [[buf r]|k|w|] eqn:RU; cbn [io_bind] in H;
+  destruct (read_line_loop fuel fuel (enc d) (inner d) []) as [[buf r]|k|w|] eqn:RU; cbn [io_bind] in H;
     try discriminate.
-  destruct (chain_read_until_bytes_ok _ _ _ _ _ _ Hr bytes_ok_nil RU) as (Hbuf & Hr1).
+  destruct (read_line_loop_bytes_ok _ _ _ _ _ _ _ Hr bytes_ok_nil RU) as (Hbuf & Hr1).
   destruct buf as [|x t].
   - inversion H; subst o d'; clear H. split; [split; [assumption|constructor]|exact I].
-  - destruct (enc_is_le (enc d) && ends_with_lf (x :: t)).
-    + destruct (read_extra fuel r (x :: t)) as [[b r2]|k|w|] eqn:RE; cbn [io_bind] in H;
-        try discriminate.
-      destruct (read_extra_bytes_ok _ _ _ _ _ Hr1 Hbuf RE) as (Hbb & Hr2).
-      destruct (curr_line (mkDecoder r2 b (enc d))) as [l|k|w|] eqn:CL;
-        cbn [io_bind] in H; try discriminate.
-      inversion H; subst o d'; clear H.
-      split; [split; assumption|]. apply curr_line_scalar in CL; [exact CL|exact Hbb].
-    + cbn [io_bind] in H.
-      destruct (curr_line (mkDecoder r (x :: t) (enc d))) as [l|k|w|] eqn:CL;
-        cbn [io_bind] in H; try discriminate.
-      inversion H; subst o d'; clear H.
-      split; [split; assumption|]. apply curr_line_scalar in CL; [exact CL|exact Hbuf].
+  - destruct (curr_line (mkDecoder r (x :: t) (enc d))) as [l|k|w|] eqn:CL;
+      cbn [io_bind] in H; try discriminate.
+    inversion H; subst o d'; clear H.
+    split; [split; assumption|]. apply curr_line_scalar in CL; [exact CL|exact Hbuf].
 Qed.
 
 Lemma lines_loop_scalar : forall n fuel d lines,
@@ -545,20 +565,24 @@ Proof.
       split; [constructor; tauto|tauto].
 Qed.
 
+Lemma Forall_scan16 : forall (P : Z -> Prop) le b st, Forall P b ->
+  Forall P (fst (scan16 le st b)) /\ Forall P (snd (scan16 le st b)).
+Proof.
+  intros P le b. induction b as [|y t IH]; intros st H; cbn [scan16]; [split; constructor|].
+  inversion H as [|y' t' Hy Ht]; subst. destruct st as [x|].
+  - destruct (is_lf_unit le x y); cbn [fst snd]; [split; [constructor; [assumption|constructor]|assumption]|].
+    destruct (IH None Ht) as (A & B). destruct (scan16 le None t). cbn [fst snd] in *. split; [constructor|]; assumption.
+  - destruct (IH (Some y) Ht) as (A & B). destruct (scan16 le (Some y) t). cbn [fst snd] in *. split; [constructor|]; assumption.
+Qed.
+
 Lemma next_raw_bytes_ok : forall e b l r, bytes_ok b -> next_raw e b = Some (l, r) ->
   bytes_ok l /\ bytes_ok r.
 Proof.
   intros e b l r Hb H. unfold next_raw in H.
-  destruct (Forall_split_line _ LF b Hb) as (Hl & Hrr).
-  destruct (split_line LF b) as [l0 r0]. cbn [fst snd] in *.
-  destruct l0 as [|x t]; [discriminate|].
-  destruct (enc_is_le e && ends_with_lf (x :: t)).
-  - destruct r0 as [|y r']; [inversion H; subst l r; clear H; split; assumption|].
-    inversion H; subst l r; clear H.
-    inversion Hrr as [|y' r'' Hy Hr']; subst.
-    split; [|assumption]. apply (proj2 (bytes_ok_app (x :: t) [y])).
-    split; [assumption|]. constructor; [assumption|constructor].
-  - inversion H; subst l r; clear H. split; assumption.
+  assert (X : bytes_ok (fst (raw_split e b)) /\ bytes_ok (snd (raw_split e b))).
+  { destruct e; cbn [raw_split]; [apply Forall_split_line|apply Forall_scan16|apply Forall_scan16]; exact Hb. }
+  destruct (raw_split e b) as [l0 r0]. cbn [fst snd] in X.
+  destruct l0 as [|x t]; [discriminate|]. inversion H; subst. exact X.
 Qed.
 
 Theorem lines_pure_scalar : forall n e b lines,
